@@ -172,3 +172,14 @@ Definition ntlm_obs (db : list (bytes * bytes)) (ops : list nop) : bytes :=
     | ONotAuth => str "no"
     end in
   join [x2c] (map show (nrun (fun u => assoc_bytes u db) nstate0 ops)).
+
+(** [relay] (C06) and [segment] (C08) cases. *)
+From RDPGW Require Import Model.Relay.
+
+Definition relay_obs (bodies writes : list bytes) : bytes :=
+  let ops := map ClientData bodies ++ map HostRead (forward_chunks writes) in
+  let st := relay ops in
+  hexs (to_host st) ++ str " | " ++ (match to_client st with [] => [x2d] | l => join [x2c] (map hexs l) end).
+
+Definition segment_obs (c : cfg) (live : list bytes) (seg whole : list read_item) : bytes :=
+  process_obs c live seg ++ str " | " ++ process_obs c live whole.
